@@ -2,7 +2,7 @@
    showing that the hypotheses of the conditional theorems are met by non-trivial inputs. *)
 From Verif Require Import Base.Prelude Peering.Model Peering.Lemmas Peering.Verbs Peering.Frame Peering.Prune
      Peering.Export Peering.Phase1 Peering.Phase2 Peering.Mirror Peering.Snapshot Peering.MirrorTop
-     Peering.SamePeer Peering.Topo Peering.Refute.
+     Peering.SamePeer Peering.Refute.
 Require Import Coq.Sorting.Permutation.
 Local Open Scope string_scope.
 
@@ -26,10 +26,6 @@ Definition same_peer_statement : Prop :=
     forall z, In z (svcs c0) -> s_peer z = p -> s_name z <> sn ->
               (forall i, In i (map (inst_set_peer p) export) -> svc_key (i_svc i) <> svc_key z) ->
               In z (svcs (h_cat (handle_update_service sh c0 p sn (Some export)))).
-
-(* "data of the local cluster is never modified", read on every table — FALSE for mesh-topology *)
-Definition topo_frame_statement : Prop :=
-  forall sh c e, shuffles_ok sh -> ev_peer e <> "" -> topo (h_cat (handle sh c e)) = topo c.
 
 Ltac ids_ne := split; intros z Hz _; vm_compute in Hz; intuition; subst; discriminate.
 
@@ -81,14 +77,6 @@ Proof.
   fold w5_after in H. rewrite S in H. cbn in H.
   destruct H as [H|[]]; [auto|reflexivity|discriminate| |discriminate].
   intros i [<-|[]]. cbn. discriminate.
-Qed.
-
-Lemma topo_frame_refuted : ~ topo_frame_statement.
-Proof.
-  intros H. destruct w4_facts as (_ & B & A).
-  specialize (H id_shuffles w4_before (EvUpsert pa "web-sidecar-proxy" w4_export) id_shuffles_ok).
-  cbn [handle ev_peer] in H. fold w4_after in H. rewrite A, B in H.
-  assert (pa <> "") by discriminate. specialize (H H0). discriminate.
 Qed.
 
 (* ------------------------------------------------------------------ the hypotheses are satisfiable *)
